@@ -1279,6 +1279,14 @@ func (f *Field) importValue(columnIDs []uint64, values []int64, options *ImportO
 		}
 	}
 
+	// Values are written with the field's bit depth, which can be larger
+	// than what this batch requires: the higher bits of the values being
+	// overwritten have to be cleared as well.
+	bitDepth := requiredDepth
+	if bsig.BitDepth > bitDepth {
+		bitDepth = bsig.BitDepth
+	}
+
 	// Split import data by fragment.
 	dataByFragment := make(map[importKey]importValueData)
 	for i := range columnIDs {
@@ -1318,7 +1326,7 @@ func (f *Field) importValue(columnIDs []uint64, values []int64, options *ImportO
 			baseValues[i] = value - bsig.Base
 		}
 
-		if err := frag.importValue(data.ColumnIDs, baseValues, requiredDepth, options.Clear); err != nil {
+		if err := frag.importValue(data.ColumnIDs, baseValues, bitDepth, options.Clear); err != nil {
 			return err
 		}
 	}
